@@ -2,10 +2,12 @@
    _get_scores and dataset._find_best_feature (C12).  Definitions only.
    The learner (scikit-learn estimator) is an oracle: [learn] maps the list of (feature row, label)
    pairs handed to estimator.fit, in the order handed, to a fitted state; [score] is
-   decision_function (or the second predict_proba column), [coscore] the first predict_proba column.
+   decision_function (or the class-1 column of predict_proba).
    rng.permutation is the oracle [sigma].  Scores are exact integers, train_fdr an exact rational.
-   The loop follows the code after repo_fixes/F7-fit-unshuffled.patch (identity permutation when
-   shuffle is off); [fit_train_unpatched] keeps the index bookkeeping of the code before the fix. *)
+   The model follows the code after repo_fixes/F7-fit-unshuffled.patch (identity permutation when
+   shuffle is off) and repo_fixes/F16-refit-predict-proba.patch (the pretrained branch of
+   _get_starting_labels scores through _get_scores); [fit_train_unpatched] and
+   [fit_pre_scores_unpatched] keep the behaviour before these repairs. *)
 From Mokaverif Require Import Model.Base Model.Tdc.
 Open Scope Z_scope.
 
@@ -46,22 +48,15 @@ Section FitLearner.
 Variables (X G : Type).
 Variable learn : list (X * bool) -> G.
 Variable score : G -> X -> Z.
-Variable coscore : G -> X -> Z.
 
-(* _get_scores: decision_function, else predict_proba(feat).squeeze(): two dimensions -> column 1,
-   one dimension -> as is, otherwise RuntimeError.  squeeze() also removes the row axis of a
-   single row. *)
+(* _get_scores: decision_function; else predict_proba: two dimensions -> column 1 (the only column
+   if there is just one), one dimension -> as is, otherwise RuntimeError (not reachable with the
+   three kinds).  One score per row in each case. *)
 Definition fit_get_scores (k : fit_skind) (g : G) (xs : list X) : result (list Z) :=
   match k with
   | FitDF => Ok (map (score g) xs)
-  | FitProba2 => match xs with
-                 | [x] => Ok [coscore g x; score g x]
-                 | _ => Ok (map (score g) xs)
-                 end
-  | FitProba1 => match xs with
-                 | [x] => Err ERuntime
-                 | _ => Ok (map (score g) xs)
-                 end
+  | FitProba2 => Ok (map (score g) xs)
+  | FitProba1 => Ok (map (score g) xs)
   end.
 
 (* samples = norm_feat[target.astype(bool), :];  iter_targ = (target[target.astype(bool)] + 1) / 2 *)
@@ -251,7 +246,6 @@ Section FitTable.
 Variable G : Type.
 Variable learn : list (list Z * bool) -> G.
 Variable score : G -> list Z -> Z.
-Variable coscore : G -> list Z -> Z.
 
 (* how the starting labels are obtained *)
 Inductive fit_start :=
@@ -261,14 +255,10 @@ Inductive fit_start :=
 
 Record fit_out := { fit_o_g : G; fit_o_pass : Z; fit_o_desc : option bool; fit_o_best : option nat }.
 
-(* the pretrained branch: estimator.decision_function(psms.features.values), or
-   predict_proba(psms.features).flatten(); neither scaler nor stored feature names are used *)
-Definition fit_pre_scores (k : fit_skind) (g0 : G) (rows : list (list Z)) : list Z :=
-  match k with
-  | FitDF => map (score g0) rows
-  | FitProba2 => flat_map (fun x => [coscore g0 x; score g0 x]) rows
-  | FitProba1 => map (score g0) rows
-  end.
+(* the pretrained branch: _get_scores(model.estimator, psms.features.values); neither the scaler
+   nor the stored feature names are used (finding F17) *)
+Definition fit_pre_scores (k : fit_skind) (g0 : G) (rows : list (list Z)) : result (list Z) :=
+  fit_get_scores (list Z) G score k g0 rows.
 
 (* _get_starting_labels: (start_labels, feat_pass, desc, best feature position) *)
 Definition fit_starting (k : fit_skind) (st : fit_start) (names : list str) (cols : list (list Z))
@@ -282,9 +272,13 @@ Definition fit_starting (k : fit_skind) (st : fit_start) (names : list str) (col
         | Err e => Err e
         end
     | FitPre g0 =>
-        match update_labels true (fit_pre_scores k g0 rows) targets thr with
-        | Ok l => Ok (l, fit_count1 l, None, None)
+        match fit_pre_scores k g0 rows with
         | Err e => Err e
+        | Ok sc =>
+            match update_labels true sc targets thr with
+            | Ok l => Ok (l, fit_count1 l, None, None)
+            | Err e => Err e
+            end
         end
     | FitDir name =>
         match fit_lookup name names cols with
@@ -317,7 +311,7 @@ Definition fit_fit (patched : bool) (k : fit_skind) (st : fit_start) (names : li
       | Ok (start, fp, d, b) =>
           let (trace, r) :=
             (if patched then fit_train else fit_train_unpatched)
-              (list Z) G learn score coscore k rows targets start fp sigma shuffle thr max_iter override in
+              (list Z) G learn score k rows targets start fp sigma shuffle thr max_iter override in
           (trace, match r with
                   | Ok g => Ok {| fit_o_g := g; fit_o_pass := fp; fit_o_desc := d; fit_o_best := b |}
                   | Err e => Err e
@@ -336,11 +330,21 @@ Definition fit_decision (trained : bool) (stored : list str) (k : fit_skind) (g 
        | Some sel =>
            match fit_rows sel n with
            | Err e => Err e
-           | Ok rows => fit_get_scores (list Z) G score coscore k g rows
+           | Ok rows => fit_get_scores (list Z) G score k g rows
            end
        end.
 
 End FitTable.
+
+(* before F16: estimator.decision_function(values), else predict_proba(features).flatten() — both
+   columns of a two-column predict_proba, row by row; [coscore] is the first column *)
+Definition fit_pre_scores_unpatched (G : Type) (score coscore : G -> list Z -> Z)
+           (k : fit_skind) (g0 : G) (rows : list (list Z)) : list Z :=
+  match k with
+  | FitDF => map (score g0) rows
+  | FitProba2 => flat_map (fun x => [coscore g0 x; score g0 x]) rows
+  | FitProba1 => map (score g0) rows
+  end.
 
 (* ======================= a concrete deterministic learner (harness estimator) ======================= *)
 (* The recording estimator of harness/props/c12.py: feature rows carry a row id in column [idc]
@@ -364,7 +368,6 @@ Definition fit_demo_learn (lk idc : nat) (kk : Z) (l : list (list Z * bool)) : Z
   end.
 
 Definition fit_demo_score (sc0 : nat) (g : Z) (x : list Z) : Z := nth (sc0 + Z.to_nat g) x 0.
-Definition fit_demo_coscore (sc0 : nat) (g : Z) (x : list Z) : Z := - fit_demo_score sc0 g x.
 
 Definition fit_demo_ids (idc : nat) (trace : list (list (list Z * bool))) : list (list (Z * bool)) :=
   map (map (fun p => (nth idc (fst p) 0, snd p))) trace.
@@ -382,18 +385,18 @@ Definition fit_demo_run (patched : bool) (lk idc sc0 : nat) (kk : Z) (k : fit_sk
             | 1%nat => FitDir Z dir
             | _ => FitPre Z g0
             end in
-  let (trace, r) := fit_fit Z (fit_demo_learn lk idc kk) (fit_demo_score sc0) (fit_demo_coscore sc0)
+  let (trace, r) := fit_fit Z (fit_demo_learn lk idc kk) (fit_demo_score sc0)
                             patched k st names cols targets sigma shuffle thr max_iter override in
   (fit_demo_ids idc trace,
    match r with
    | Err e => Err e
    | Ok o =>
        let g := fit_o_g Z o in
-       let dec := fit_decision Z (fit_demo_score sc0) (fit_demo_coscore sc0) true names k g in
+       let dec := fit_decision Z (fit_demo_score sc0) true names k g in
        Ok (g, fit_o_pass Z o, fit_o_desc Z o, fit_o_best Z o,
            dec names cols (length targets), dec names2 cols2 n2)
    end).
 
 Definition fit_demo_decision (trained : bool) (sc0 : nat) (stored : list str) (k : fit_skind) (g : Z)
            (names : list str) (cols : list (list Z)) (n : nat) : result (list Z) :=
-  fit_decision Z (fit_demo_score sc0) (fit_demo_coscore sc0) trained stored k g names cols n.
+  fit_decision Z (fit_demo_score sc0) trained stored k g names cols n.
